@@ -164,7 +164,7 @@ theorem indexed_getD {α : Type} (l : List α) (dflt : α) (x : Nat × α) (h : 
   have : x = (i, l[i]'(by omega)) := by
     rw [← hx]; simp
   subst this
-  simp [List.getD, hi.2]
+  simp [hi]
 
 /-- `postprocessASAACL` on any command that `lookupCmd` finds for a right-trimmed line with the
 ASA table: `tokens[2]` and `tokens[4:]` are in range, the rest is `postprocessACLParts`. -/
@@ -187,18 +187,17 @@ theorem no_panic_postprocessIOSACL (tb : Tables) (body : Str) (d : Descr) (hd : 
     NoPanic (iosACL true tb sc.orig sc.parsed) := by
   obtain ⟨e, he, _, hlen⟩ := matchCmd_fields_ge [] (fields body) (fields_lastNonblank body) sc _ (by
       intro e he
-      simp at he
-      obtain ⟨a, b, hab, rfl⟩ := he
-      exact ios_cleanSubs d hd b (mem_indexed hab)) h
-  simp at he
-  obtain ⟨a, b, hab, rfl⟩ := he
-  have h2 := ios_aclSub_minWords d hd hp b (mem_indexed hab)
+      obtain ⟨x, hx, rfl⟩ := List.mem_map.mp he
+      exact ios_cleanSubs d hd x.2 (mem_indexed hx)) h
+  obtain ⟨x, hx, rfl⟩ := List.mem_map.mp he
+  have h2 := ios_aclSub_minWords d hd hp x.2 (mem_indexed hx)
   simp [fields] at hlen
+  have h3 : 2 ≤ (fields sc.parsed).length := by omega
   apply iosACL_noPanic
-  match hf : fields sc.parsed, hlen with
-  | [], hlen => simp at hlen; omega
-  | [_], hlen => simp at hlen; omega
-  | t0 :: t1 :: rest, _ => exact ⟨t0, t1, rest, rfl⟩
+  match hf : fields sc.parsed with
+  | [] => rw [hf] at h3; simp at h3
+  | [_] => rw [hf] at h3; simp at h3
+  | t0 :: t1 :: rest => exact ⟨t0, t1, rest, rfl⟩
 
 /-! ## postprocessParsed: aaa-server, transform-set, metric -/
 
@@ -381,6 +380,7 @@ theorem no_panic_typeAssert (k : Backend.Kind) : NoPanic (Backend.assertKind k (
 
 /-! ## every panic site and guard of the modelled functions is in the table -/
 
+set_option maxRecDepth 100000 in
 /-- The regenerated list of sites equals the hand-maintained table, key by key. -/
 theorem sites_exact : NA.Gen.PanicSites.sites.map (·.key) = siteTable.map (·.1) := by decide
 
